@@ -9,7 +9,10 @@ from vlib import build, packcheck, mkimg, sqfsck
 from vlib.mkimg import D, F
 
 KINDS = ["gzip-compress", "gzip-uncompress", "xz-compress", "xz-uncompress", "lz4-compress", "lz4-uncompress", "zstd-compress", "zstd-uncompress",
-         "lzma-compress", "lzma-uncompress", "frag-table", "id-table", "meta-reader", "dir-reader", "dir-reader-dot", "data-reader", "xattr-reader", "file", "xattr-writer"]
+         "lzma-compress", "lzma-uncompress",
+         # the same compressors with every option at a non-default value (level, gzip window, xz/lzma dictionary + lc/lp/pb + BCJ filter, lz4 HC)
+         "gzip-opt-compress", "gzip-opt-uncompress", "xz-opt-compress", "xz-opt-uncompress", "lz4-opt-compress", "lz4-opt-uncompress", "zstd-opt-compress", "zstd-opt-uncompress",
+         "lzma-opt-compress", "lzma-opt-uncompress", "frag-table", "id-table", "meta-reader", "dir-reader", "dir-reader-dot", "data-reader", "xattr-reader", "file", "xattr-writer"]
 
 
 def load_c10():
@@ -144,7 +147,7 @@ def main():
         cr.coverage.update(states=len(per), transitions=tot["ops_executed"], traces_validated_against_impl=tot["histories"], evaluations=tot["histories"],
                            distinct_nontrivial=tot["histories"], kinds=per, pre_copy_depth=P, post_copy_depth=Q,
                            rule="Images: a gensquashfs image (all kinds) and an independently written image whose inode table exceeds 64 KiB, so that inode references need more than 32 bits "
-                                "(metadata and directory readers). Object kinds: compressors gzip/xz/lz4/zstd/lzma x {compress, uncompress} (do_block on 3 inputs, get_configuration), fragment table (append, set, lookup x2, "
+                                "(metadata and directory readers). Object kinds: compressors gzip/xz/lz4/zstd/lzma x {compress, uncompress} x {default options, every option non-default} (do_block on 3 inputs, get_configuration), fragment table (append, set, lookup x2, "
                                 "get_size), id table (id_to_index x2, index_to_id x2), metadata reader (seek+read), directory reader with flags 0 and DOT_ENTRIES (get_inode, readdir, "
                                 "resolve_path), data reader (read, get_block, get_fragment, stream), xattr reader (read_all), read-only file (read_at x2, get_size; copying a writable file must "
                                 "fail), xattr writer (3 begin/add/end sequences, flush to a memory file). Per kind: every pre-copy history of length <= P over its alphabet, copy, every sequence of "
